@@ -14,6 +14,10 @@ func (e *FilterExec) Explain() string {
 }
 
 func (e *FilterExec) Filter(kvp KVPair, ctx *ExecuteCtx) (bool, error) {
+	if ctx != nil {
+		// cached field results belong to the previously scanned pair
+		ctx.Clear()
+	}
 	ret, err := e.filterBatch([]KVPair{kvp}, ctx)
 	if err != nil {
 		return false, err
